@@ -34,8 +34,10 @@ ASSUMPTIONS = ["a killed client simply stops sending; its write end closes; EOF 
                "deleting a tracked folder legitimately deletes what it contains"]
 N_RUNS = {"quick": 5000, "thorough": 250000}
 
-FILES = ["f0", "f1", "f2", "d0/in0", "d1/in1"]
-FOLDERS = ["d0", "d1"]
+# one file and one folder have a ':' in their name (the separator of the tracker's wire format: the name is everything
+# between the command and the type); "f2" is an unregistered sibling of "f2:a" that nothing may ever delete
+FILES = ["f0", "f1", "f2:a", "d0/in0", "d1:b/in1"]
+FOLDERS = ["d0", "d1:b"]
 
 
 def gen_case(rng):
@@ -267,7 +269,7 @@ def run_real_case(case):
     try:
         for d in FOLDERS + ["decoydir", "cwd"]:
             os.mkdir(os.path.join(root, d))
-        for f in FILES + ["decoy", "decoydir/x", "bystander"]:
+        for f in FILES + ["decoy", "decoydir/x", "bystander", "f2"]:
             open(os.path.join(root, f), "w").close()
         os.chdir(os.path.join(root, "cwd"))
         os.environ["PYTHONPATH"] = REPO
@@ -361,7 +363,7 @@ def run_real_case(case):
             for p in model[t]:
                 deleted.add(p)
         if verdict is None:
-            for x in FILES + FOLDERS + ["decoy", "decoydir", "decoydir/x", "bystander"]:
+            for x in FILES + FOLDERS + ["decoy", "decoydir", "decoydir/x", "bystander", "f2"]:
                 p = P(x); ex = os.path.exists(p)
                 inside = any(p.startswith(d + os.sep) for d in deleted)
                 if p in deleted and ex:
@@ -398,7 +400,7 @@ def run_case(case):
         for d in FOLDERS + ["decoydir"]:
             if d not in absent:
                 os.mkdir(os.path.join(root, d))
-        for f in FILES + ["decoy", "decoydir/x", "bystander"]:
+        for f in FILES + ["decoy", "decoydir/x", "bystander", "f2"]:
             if f not in absent:
                 open(os.path.join(root, f), "w").close()
         P = lambda n: os.path.join(root, n)  # noqa
@@ -410,7 +412,7 @@ def run_case(case):
         unregistered = set()
         state = {"line": 0, "viol": None, "zero_while_other_held": 0, "killed_holding": 0, "delivered": 0}
         cleanup_log = []
-        all_paths = [P(x) for x in FILES + FOLDERS + ["decoy", "decoydir", "decoydir/x", "bystander"]]
+        all_paths = [P(x) for x in FILES + FOLDERS + ["decoy", "decoydir", "decoydir/x", "bystander", "f2"]]
 
         def inside_deleted_folder(p):
             return any(p.startswith(d + os.sep) for d in deleted)
